@@ -375,7 +375,25 @@ pub fn spaces(tier: Tier) -> Vec<Space> {
                 ECDSA::verify_hashbuf(&digest, &pk, &sig)
             });
             if matches!(hb, Ok(Ok(true))) && !ref_ok {
-                acc.violate("C05/verify_hashbuf/kind=accepts-invalid-signature", case.idx, case.json(input), "library reports success, reference verifier rejects");
+                acc.violate("C05/verify_hashbuf/kind=accepts-invalid-signature", case.idx, case.json(input.clone()), "library reports success, reference verifier rejects");
+            }
+            // the message-level verifiers (SHA-256 only): every one of them must agree with the reference verdict
+            if vhash == 0 {
+                acc.transitions += 3;
+                let others = guard(|| {
+                    let pk = lib_key(&kt.d[vkey], true).to_public_key()?;
+                    Ok::<_, bsv::BSVErrors>((pk.is_valid_message(&vmsg, &sig), sig.verify_message(&vmsg, &pk), pk.verify_message(&vmsg, &sig).unwrap_or(false)))
+                });
+                if let Ok(Ok((a, b, c3))) = others {
+                    for (name, got) in [("PublicKey::is_valid_message", a), ("Signature::verify_message", b), ("PublicKey::verify_message", c3)] {
+                        if got && !ref_ok {
+                            acc.violate(format!("C05/{}/kind=accepts-invalid-signature", name), case.idx, case.json(input.clone()), "library reports success, reference verifier rejects");
+                        }
+                        if !got && ref_ok {
+                            acc.violate(format!("C05/{}/kind=rejects-valid-signature", name), case.idx, case.json(input.clone()), "reference verifier accepts");
+                        }
+                    }
+                }
             }
         }));
     }
@@ -465,6 +483,57 @@ pub fn spaces(tier: Tier) -> Vec<Space> {
                 }
                 Ok(Err(e)) => acc.violate("C05/key-constructors/kind=spurious-error", case.idx, case.json(input), e.to_string()),
                 Err(p) => acc.violate(format!("C05/key-constructors/kind=panic@{}", panic_site(&p)), case.idx, case.json(input), p),
+            }
+        }));
+    }
+    // 6c. the transaction-level caller-nonce entry point: Transaction::sign_with_k must produce the (r, s) of the reference
+    //     for (signer key, nonce) over SHA256d of the library's own preimage, and verify under the SIGNER's key
+    {
+        let kt = kt.clone();
+        v.push(Space::new("transaction-sign_with_k", nk * nk * 2, move |case, acc| {
+            let c = coords(case.idx, &[nk, nk, 2]);
+            let (d, q) = (&kt.d[c[0] as usize], &kt.q[c[0] as usize]);
+            let k = &kt.d[c[1] as usize];
+            let flag = if c[2] == 0 { bsv::SigHash::InputsOutputs } else { bsv::SigHash::try_from(0xc3u8).unwrap() };
+            let input = json!({"key": hx(&secp::be32(d)), "nonce": hx(&secp::be32(k)), "flag": c[2]});
+            acc.evaluations += 1;
+            acc.transitions += 2;
+            let lib = guard(|| {
+                let mut tx = bsv::Transaction::new(1, 0);
+                tx.add_input(&bsv::TxIn::new(&[7u8; 32], 1, &bsv::Script::from_bytes(&[])?, Some(0xfffffffe)));
+                tx.add_output(&bsv::TxOut::new(5000, &bsv::Script::from_bytes(&[0x51])?));
+                let sub = bsv::Script::from_bytes(&[0x76, 0xa9, 0x01, 0x07, 0x88, 0xac])?;
+                let pre = tx.sighash_preimage(flag, 0, &sub, 1234)?;
+                let sig = tx.sign_with_k(&lib_key(d, true), &lib_key(k, true), flag, 0, &sub, 1234)?;
+                let ok = tx.verify(&lib_key(d, true).to_public_key()?, &sig);
+                Ok::<_, bsv::BSVErrors>((pre, sig.to_bytes()?, ok))
+            });
+            match lib {
+                Ok(Ok((pre, sigbytes, ok))) => {
+                    acc.traces += 1;
+                    acc.nontrivial_structural += 1;
+                    let digest = rh::sha256d(&pre);
+                    let want = secp::sign_with_k(d, &z_of(&digest), k, true);
+                    let got = secp::der_decode(&sigbytes[..sigbytes.len().saturating_sub(1)]);
+                    acc.outcome(&[ok as u8, want.is_some() as u8]);
+                    match (got, want) {
+                        (Some((r, s_)), Some(w)) => {
+                            if (r.clone(), s_.clone()) != (w.r.clone(), w.s.clone()) {
+                                acc.violate("C05/Transaction::sign_with_k/kind=differs-from-reference", case.idx, case.json(input.clone()), format!("library DER {} reference r={} s={}", hx(&sigbytes), hx(&secp::be32(&w.r)), hx(&secp::be32(&w.s))));
+                            }
+                            if !secp::verify(q, &z_of(&digest), &r, &s_) {
+                                acc.violate("C05/Transaction::sign_with_k/kind=signature-does-not-verify", case.idx, case.json(input.clone()), "reference verifier rejects it under the signer's key");
+                            }
+                            if !ok {
+                                acc.violate("C05/Transaction::verify/kind=rejects-own-signature", case.idx, case.json(input), "Transaction::verify rejects the signature just made");
+                            }
+                        }
+                        (None, _) => acc.violate("C05/Transaction::sign_with_k/kind=not-der", case.idx, case.json(input), hx(&sigbytes)),
+                        (Some(_), None) => {}
+                    }
+                }
+                Ok(Err(_)) => acc.outcome(b"refused"),
+                Err(p) => acc.violate(format!("C05/Transaction::sign_with_k/kind=panic@{}", panic_site(&p)), case.idx, case.json(input), p),
             }
         }));
     }
